@@ -112,4 +112,52 @@ theorem rewardsOfBlock_sim (cfg : Cfg) (st : Storage) (c : Caches) (hh : Nat) (t
 theorem restart_sim {s₁ s₂ : RState} (h : RSim s₁ s₂) : RSim s₁ { s₂ with gpv := gpvStep s₂.gpv .restart } :=
   ⟨h.acc, by simpa [gpvStep] using h.store, h.c1, gpvStep_coherent _ _ h.c2⟩
 
+theorem restart_sim_left {s₁ s₂ : RState} (h : RSim s₁ s₂) : RSim { s₁ with gpv := gpvStep s₁.gpv .restart } s₂ :=
+  ⟨h.acc, by simpa [gpvStep] using h.store, gpvStep_coherent _ _ h.c1, h.c2⟩
+
+/-- one block as the reward state machine sees it: configuration, natives storage and caches before it, index,
+    transactions, GetGASPerBlock -/
+abbrev Blk := Cfg × Storage × Caches × Nat × List Tx × Int
+
+/-- a replica's history: blocks, each optionally preceded by a restart of the node (InitializeCache: empty cache) -/
+def rrun (s : RState) : List (Bool × Blk) → RState
+  | [] => s
+  | (restartFirst, (cfg, st, c, h, txs, gas)) :: rest =>
+    let s := if restartFirst then { s with gpv := gpvStep s.gpv .restart } else s
+    rrun (rewardsOfBlock cfg st c h txs gas s) rest
+
+theorem rrun_sim : ∀ (l₁ l₂ : List (Bool × Blk)) {s₁ s₂ : RState}, l₁.map (·.2) = l₂.map (·.2) → RSim s₁ s₂ →
+    RSim (rrun s₁ l₁) (rrun s₂ l₂) := by
+  intro l₁
+  induction l₁ with
+  | nil =>
+    intro l₂ s₁ s₂ hm h
+    cases l₂ with
+    | nil => exact h
+    | cons _ _ => simp at hm
+  | cons x xs ih =>
+    intro l₂ s₁ s₂ hm h
+    cases l₂ with
+    | nil => simp at hm
+    | cons y ys =>
+      obtain ⟨f1, b1⟩ := x
+      obtain ⟨f2, b2⟩ := y
+      simp only [List.map_cons, List.cons.injEq] at hm
+      obtain ⟨hb, hrest⟩ := hm
+      subst hb
+      obtain ⟨cfg, st, c, hh, txs, gas⟩ := b1
+      simp only [rrun]
+      apply ih ys hrest
+      apply rewardsOfBlock_sim
+      cases f1 <;> cases f2
+      · exact h
+      · exact restart_sim h
+      · exact restart_sim_left h
+      · exact restart_sim (restart_sim_left h)
+
+/-- the state right after genesis: no reward record, the given account records; the relation holds trivially -/
+theorem genesis_sim (acc : List (Acct × (Nat × Int))) :
+    RSim { gpv := { store := [], cache := [] }, acc := acc } { gpv := { store := [], cache := [] }, acc := acc } :=
+  ⟨rfl, rfl, by intro k v h; simp [aget] at h, by intro k v h; simp [aget] at h⟩
+
 end NeoModel.Ledger.Reward
